@@ -1,2 +1,5 @@
 //! Further constants (flags, sizes, limits) — extended as properties are added.
-pub fn dump() {}
+pub fn dump() {
+    println!("def wdlHeightTotalCount : Nat := {}", wow_wdl::types::HeightMapTile::TOTAL_COUNT);
+    println!("def wdlHolesMaskCount : Nat := {}", wow_wdl::types::HolesData::MASK_COUNT);
+}
